@@ -16,7 +16,9 @@
 //     slice of structs may contain ONE loop  for i, a := range aa { ... }  with break, x := aa[i+1], len(aa) and
 //     assignments to integer variables declared before it: the loop becomes a Fixpoint over the remaining
 //     elements (tuples of the fields in structFields) that carries index, length and the assigned variables.
-//     This is what ArchiveInfoList.validate needs.
+//     This is what ArchiveInfoList.validate needs.  A method of a struct may range in the same way over a
+//     field that is a slice of structs (structSliceFields), which then becomes a list parameter behind the
+//     integer fields, and the loop's Fixpoint returns what the function returns: Header.ExpectedFileSize.
 //     Every arithmetic result and every conversion is wrapped to the width of its Go type (u32, i32,
 //     u64, i64; int and uint are 64 bits wide); / and % are Z.quot and Z.rem.
 //     A receiver of struct type contributes the parameters listed in structFields.
@@ -49,6 +51,7 @@ var kernel = []string{
 	"ArchiveInfo.interval", "ArchiveInfo.intervalForWrite",
 	"Header.Size",
 	"ArchiveInfo.validate", "ArchiveInfoList.validate",
+	"Header.ExpectedFileSize",
 }
 
 type fakeImporter struct{ pkgs map[string]*types.Package }
@@ -78,6 +81,12 @@ var structFields = map[string][]string{
 	"Header":      {"aggregationMethod", "maxRetention", "archiveCount"},
 }
 
+// structSliceFields names, per struct type, the fields that are slices of structs a method may range over (they
+// become a list parameter of the methods that do).
+var structSliceFields = map[string]map[string]string{
+	"Header": {"archiveInfoList": "ArchiveInfo"},
+}
+
 type world struct {
 	info  *types.Info
 	fset  *token.FileSet
@@ -98,6 +107,7 @@ type tr struct {
 	loop     *loopCtx          // set while the body of the range loop is translated
 	slice    string            // name of a receiver of slice type, "" if none
 	fname    string            // the function being translated
+	resType  string            // "Z" or "bool"
 	pre      strings.Builder   // definitions to be written out before it (the Fixpoint of its loop)
 }
 
@@ -336,14 +346,25 @@ func (t *tr) bindStruct(name, elemOf string) svar {
 // rest, as a Fixpoint over the remaining elements that carries the index, the length and every integer
 // variable the body assigns; the Fixpoint is written out before the function itself.
 func (t *tr) rangeLoop(s *ast.RangeStmt, rest []ast.Stmt, indent string) string {
-	sl, ok := s.X.(*ast.Ident)
-	if !ok || sl.Name != t.slice || t.slice == "" || t.loop != nil || s.Tok != token.DEFINE {
+	name := ""
+	switch x := s.X.(type) {
+	case *ast.Ident:
+		name = x.Name
+	case *ast.SelectorExpr:
+		if id, ok := x.X.(*ast.Ident); ok && id.Name == t.recv && t.recv != "" {
+			name = x.Sel.Name
+		}
+	}
+	if name == "" || name != t.slice || t.loop != nil || s.Tok != token.DEFINE {
 		fail("range statement at %s", t.fset.Position(s.Pos()))
 	}
 	key, ok1 := s.Key.(*ast.Ident)
 	val, ok2 := s.Value.(*ast.Ident)
-	if !ok1 || !ok2 || key.Name == "_" || val.Name == "_" {
+	if !ok1 || !ok2 || val.Name == "_" {
 		fail("range statement at %s", t.fset.Position(s.Pos()))
+	}
+	if key.Name == "_" {
+		key = &ast.Ident{Name: "index_"}
 	}
 	after := t.stmts(rest, indent+"    ")
 	var accs []string
@@ -371,7 +392,7 @@ func (t *tr) rangeLoop(s *ast.RangeStmt, rest []ast.Stmt, indent string) string 
 	t.loop = nil
 	delete(t.structs, val.Name)
 	tuple := strings.TrimSuffix(strings.Repeat("Z * ", len(names)), " * ")
-	fmt.Fprintf(&t.pre, "Fixpoint %s (rest0 : list (%s)) (%s : Z) {struct rest0} : bool :=\n  match rest0 with\n  | [] => %s\n  | (%s) :: rest =>\n    %s\n  end.\n",
+	fmt.Fprintf(&t.pre, "Fixpoint %s (rest0 : list (%s)) (%s : Z) {struct rest0} : "+t.resType+" :=\n  match rest0 with\n  | [] => %s\n  | (%s) :: rest =>\n    %s\n  end.\n",
 		fname, tuple, strings.Join(carried, " "), after, strings.Join(names, ", "), body)
 	return "(" + fname + " v_" + t.slice + " 0 " + strings.Join(carried[1:], " ") + ")"
 }
@@ -592,6 +613,22 @@ func (w *world) ensure(k string) (ok bool) {
 				t.fields[f] = "f_" + f
 				params = append(params, "f_"+f)
 			}
+			// a slice field the body ranges over becomes a list parameter (behind the integer fields)
+			ast.Inspect(fd.Body, func(nd ast.Node) bool {
+				if rs, ok := nd.(*ast.RangeStmt); ok {
+					if se, ok := rs.X.(*ast.SelectorExpr); ok {
+						if id, ok := se.X.(*ast.Ident); ok && id.Name == rname {
+							if et, ok := structSliceFields[t.recvType][se.Sel.Name]; ok && t.slice == "" {
+								t.slice = se.Sel.Name
+								t.structs["["+t.slice+"]"] = svar{typ: et}
+								tuple := strings.TrimSuffix(strings.Repeat("Z * ", len(structFields[et])), " * ")
+								sliceParam = "(v_" + t.slice + " : list (" + tuple + "))"
+							}
+						}
+					}
+				}
+				return true
+			})
 		} else if isInteger(rt) {
 			params = append(params, "v_"+rname)
 		} else if sl, isSl := rt.Underlying().(*types.Slice); isSl {
@@ -625,13 +662,18 @@ func (w *world) ensure(k string) (ok bool) {
 	} else if !isInteger(rt) {
 		fail("result is not one integer")
 	}
+	t.resType = resType
 	if len(params) == 0 && sliceParam == "" {
 		fail("no parameters")
 	}
 	body := t.stmts(fd.Body.List, "  ")
 	sig := sliceParam
 	if len(params) > 0 {
-		sig += " (" + strings.Join(params, " ") + " : Z)"
+		if t.recv != "" {
+			sig = "(" + strings.Join(params, " ") + " : Z) " + sliceParam
+		} else {
+			sig += " (" + strings.Join(params, " ") + " : Z)"
+		}
 	}
 	if t.slice != "" {
 		body = "let v_len_" + t.slice + " := Z.of_nat (length v_" + t.slice + ") in\n  " + body
